@@ -91,6 +91,9 @@ type Sink func(ssa.Instruction) bool
 type AcceptSpec struct {
 	NoRet bool // returns are not accept outcomes (sink-only analysis)
 	Sink  Sink
+	// Block: instructions that discharge a path (must-pass-through rules): a
+	// path that executes one is not an accept outcome any more.
+	Block Sink
 }
 
 type Gate struct {
@@ -403,6 +406,10 @@ func (a *FnAnalysis) reach(as *assume, start *ssa.BasicBlock, from int) bool {
 		stop := false
 		for i := s.idx; i < len(instrs) && !stop; i++ {
 			in := instrs[i]
+			if a.Spec.Block != nil && a.Spec.Block(in) {
+				stop = true
+				break
+			}
 			if a.Spec.Sink != nil && a.Spec.Sink(in) {
 				return true
 			}
@@ -632,3 +639,59 @@ func (a *FnAnalysis) candidate(v ssa.Value) bool {
 
 // AcceptCount is the number of accept outcomes with no assumption.
 func (a *FnAnalysis) AcceptCount() int { return len(a.acceptSites()) }
+
+// Bounds lists the integer comparisons that branch in the function, in
+// canonical form ("lt(a, b)" / "eq(a, b)", prefixed by "!" when the branch is
+// taken on the negation), excluding loop-carried induction tests. An
+// off-by-one or a swapped operand changes the canonical form.
+func (a *FnAnalysis) Bounds() []string {
+	set := map[string]bool{}
+	for _, b := range a.Fn.Blocks {
+		if _, reached := a.mustIn[b]; !reached || len(b.Instrs) == 0 {
+			continue
+		}
+		ifi, ok := b.Instrs[len(b.Instrs)-1].(*ssa.If)
+		if !ok {
+			continue
+		}
+		v := ifi.Cond
+		for {
+			if u, ok := v.(*ssa.UnOp); ok && u.Op == token.NOT {
+				v = u.X
+				continue
+			}
+			break
+		}
+		bo, ok := v.(*ssa.BinOp)
+		if !ok {
+			continue
+		}
+		c := a.D.CanonCond(ifi.Cond)
+		bt, ok := bo.X.Type().Underlying().(*types.Basic)
+		if !ok || bt.Info()&types.IsInteger == 0 {
+			// besides integer comparisons: nil tests of (parts of) parameters
+			if !strings.HasPrefix(c.Desc, "isnil(P") {
+				continue
+			}
+		}
+		// loop induction tests (an operand IS the loop counter) are not bounds of the input
+		ind := func(v ssa.Value) bool {
+			d := a.D.Val(v)
+			return strings.HasPrefix(d, "phi") || strings.HasPrefix(d, "(phi")
+		}
+		if ind(bo.X) || ind(bo.Y) {
+			continue
+		}
+		s := c.Desc
+		if c.Neg {
+			s = "!" + s
+		}
+		set[s] = true
+	}
+	var out []string
+	for s := range set {
+		out = append(out, s)
+	}
+	sort.Strings(out)
+	return out
+}
